@@ -101,6 +101,26 @@ def term_stamp(cx):
         cx.check(ok, "stamp:" + v, "a %s leaves send() only after `m.term := self.term`" % v, push)
 
 
+@obligation("MSG.from_stamp", ["C08", "C10", "C20"], floor=1, kind="must-pass-through under assumption",
+            why="a message that leaves the node without a sender cannot be answered: a forwarded read or proposal is then treated by the leader as its own")
+def from_stamp(cx):
+    send = cx.fn("RaftCore::send")
+    g = cx.pg(send)
+    a = cx.prog.A(send)
+    pushes = [s for s in cx.prog.call_sites_of("alloc::vec::Vec::push") if s.fn is send]
+    cx.need(pushes, "Vec::push in RaftCore::send")
+    push = pushes[0]
+    mobj = call_args(cx, push)[1]
+    blocks = set()
+    for s in cx.prog.writes.get("Message.from", []):
+        if s.fn is send and s.kind == "write" and "stmt" in s.data and is_f(a.expr_rvalue(s.data["stmt"]["rv"], s.at), "RaftCore.id"):
+            blocks.add(s.block)
+    cx.check(bool(blocks), "site", "send() stamps m.from := self.id")
+    unset = ("in", ("field", mobj, "Message.from"), frozenset([0]), None)
+    ok = bool(blocks) and g.dominated_by_block(push.at, lambda b: b in blocks, assume=[unset])
+    cx.check(ok, "stamp", "a message whose sender is unset leaves send() only after `m.from := self.id` (whatever its type)", push)
+
+
 @obligation("MSG.priority_stamp", ["C10", "C03"], floor=3, kind="must-pass-through per message type",
             why="voters compare the candidate's priority with their own when logs are equally long; a vote or pre-vote request that does not carry it is refused by every voter with a positive priority, and nobody is ever elected")
 def priority_stamp(cx):
@@ -325,7 +345,9 @@ def ack_index(cx):
                 mn = as_min(hb["hi"])
                 ok = mn is not None and ("field", m, "Message.index") in mn and any(is_log_call(x, "last_index") for x in mn)
             cx.check(ok, key + ":hint", "rejection hint = find_conflict_by_term(min(m.index, last_index), m.log_term).0 (found %s)" % show(hint)[:120], t.site)
-            lb = match(call(ANY, ("tfield", call("~RaftLog::find_conflict_by_term", ANY, ANY, ANY), 1)), lt)
+            from ..idioms import unwrapped
+            inner = unwrapped(lt) if lt is not None else None
+            lb = inner is not None and match(("tfield", call("~RaftLog::find_conflict_by_term", ANY, ANY, ANY), 1), inner)
             cx.check(bool(lb), key + ":hint_term", "rejection log_term = the term found by find_conflict_by_term (found %s)" % show(lt)[:120], t.site)
             cx.check(is_committed(t.get("commit")), key + ":commit", "append response commit = raft_log.committed", t.site)
     cx.check(n_acc >= 1, "floor:accept", "an accepting append response template exists")
